@@ -276,6 +276,12 @@ func (r *Reconciler) updateInstanceWithCurrentRS(logger logr.Logger, now time.Ti
 			// if the Canary Deployment is not active anymore remove the canary annotations
 			updateDaemonsetAnnotations = clearCanaryAnnotations(newDaemonset)
 		}
+	} else {
+		// No canary strategy (it may have been removed while a canary was in progress): nothing of a
+		// previous canary may survive in the status, otherwise the active replica set keeps
+		// ignoring the former canary nodes and a stale reason is reported.
+		newDaemonset.Status.Canary = nil
+		newDaemonset.Status.Reason = ""
 	}
 
 	// Check if newDaemonset differs from existing daemonset, and update if so
